@@ -415,6 +415,8 @@ func (fc *FnCtx) loopHeader(h *ssa.BasicBlock, phis []*ssa.Phi) {
 		}
 	}
 	fc.loopPre[h] = fc.cur.clone()
+	// names as they are on entry to the loop (the loop frame is stated over these)
+	entryNames := fc.phiNames(phis, func(p *ssa.Phi) V { return fc.vals[p] })
 	// 2. havoc
 	for _, ph := range phis {
 		nv := fc.freshV(ph.Type(), "loop_"+ph.Name()+"_"+ph.Comment)
@@ -425,9 +427,9 @@ func (fc *FnCtx) loopHeader(h *ssa.BasicBlock, phis []*ssa.Phi) {
 		fc.havocAll(fc.cur)
 	} else if ls != nil && len(ls.Modifies) > 0 {
 		// explicit loop frame: only the listed locations change (every write in the body is checked against it)
-		env := fc.loopEnv(h, fc.cur, fc.phiNames(phis, func(p *ssa.Phi) V { return fc.vals[p] }))
+		env := fc.loopEnv(h, fc.cur, entryNames)
 		pre := fc.cur.clone()
-		envOld := &Env{fc: fc, vars: env.vars, bound: env.bound, cur: pre, old: pre, oldAc: pre.ac, pkg: env.pkg, at: h}
+		envOld := &Env{fc: fc, vars: env.vars, bound: env.bound, cur: pre, old: pre, oldAc: pre.ac, pkg: env.pkg, at: h, phiNames: env.phiNames}
 		var ts []modTarget
 		for _, m := range ls.Modifies {
 			ts = append(ts, envOld.resolveTarget(m)...)
@@ -471,7 +473,9 @@ func (fc *FnCtx) loopHeader(h *ssa.BasicBlock, phis []*ssa.Phi) {
 	if ls != nil {
 		env := fc.loopEnv(h, fc.cur, fc.phiNames(phis, func(p *ssa.Phi) V { return fc.vals[p] }))
 		for _, inv := range ls.Invariants {
-			fc.assume(env.evalBool(inv.E))
+			if fc.tierActive(inv.Props) {
+				fc.assume(env.evalBool(inv.E))
+			}
 		}
 		for _, hc := range ls.Hints {
 			fc.assume(env.evalBool(hc.E))
@@ -1508,4 +1512,9 @@ func (fc *FnCtx) watchStruct(name string, v V, st *State, depth int) {
 			fc.watchStruct(name+"."+f.Name(), fv, st, depth+1)
 		}
 	}
+}
+
+// tierActive: clauses tagged "thorough" are neither checked nor assumed in the quick tier.
+func (fc *FnCtx) tierActive(props []string) bool {
+	return !hasProp(props, "thorough") || fc.e.tier == "thorough"
 }
